@@ -1,4 +1,5 @@
 import Driver.C14
+import Driver.C15
 
 /-! Line-protocol driver: `driver <property> model|oracle < ops > out`.
     Stateless properties map each line independently; stateful ones thread a state. -/
@@ -15,4 +16,5 @@ def main (args : List String) : IO UInt32 := do
   let stdout ← IO.getStdout
   match args with
   | ["C14", mode] => loopStateless stdin stdout (Driver.C14.step (mode == "oracle")); return 0
+  | ["C15", mode] => loopStateless stdin stdout (Driver.C15.step (mode == "oracle")); return 0
   | _ => IO.eprintln "usage: driver <property> model|oracle"; return 2
